@@ -695,11 +695,21 @@ class ExprGen:
             return self.pick(C("lit<"), C(""), N("s1"), N("s2"), N("m1"), C("q"))
         if r < 0.5: return J.Concat(*[self.gany(d - 1) for _ in range(self.rnd.randint(2, 3))])
         if r < 0.6: return J.Bin("+", self.gstr(d - 1), self.gstr(d - 1))
-        if r < 0.7: return J.Filter(self.pick(N("l1"), N("l3"), self.glist(d - 1), self.glist(d - 1)), "join",
-                                    [self.pick(C("|"), C(", "), self.gstr(d - 1))] if self.rnd.random() < 0.7 else [])
+        if r < 0.7:
+            lst = self.pick(N("l1"), N("l3"), self.glist(d - 1), self.glist(d - 1))
+            sep = [self.pick(C("|"), C(", "), self.gstr(d - 1))] if self.rnd.random() < 0.7 else []
+            if self.rich and sep and self.rnd.random() < 0.35:
+                return J.Filter(lst, "join", [], [("d", sep[0])])          # keyword form
+            return J.Filter(lst, "join", sep)
         if r < 0.78: return J.Filter(self.gany(d - 1), "string")
         if r < 0.86: return J.Filter(self.gany(d - 1), self.pick("e", "safe"))
-        if r < 0.92: return J.Filter(self.pick(N("u1"), N("s1"), self.gany(d - 1)), "default", [self.gstr(d - 1)] + ([C(True)] if self.rnd.random() < 0.4 else []))
+        if r < 0.92:
+            subj = self.pick(N("u1"), N("s1"), self.gany(d - 1))
+            dv = self.gstr(d - 1)
+            bo = self.rnd.random() < 0.4
+            if self.rich and self.rnd.random() < 0.35:
+                return J.Filter(subj, "default", [], [("default_value", dv)] + ([("boolean", C(True))] if bo else []))   # keyword form
+            return J.Filter(subj, "default", [dv] + ([C(True)] if bo else []))
         if r < 0.96: return J.Call(N("f3"))
         return J.Bin("*", self.gstr(d - 1), self.pick(C(0), C(2)))
 
